@@ -165,6 +165,14 @@ func VerifC08_DecoderTotalShort() {
 	totality(rt.BytesN("b", 0, maxLen))
 }
 
+// every length prefix of the meta block, up to the maximal 10-byte varint
+// (values up to 2^64-1): version byte fixed, 10..12 further symbolic bytes
+func VerifC08_DecoderLengthPrefix() {
+	n := rt.Len("n", 10, 12)
+	b := append([]byte{1}, rt.Bytes("b", n)...)
+	totality(b)
+}
+
 // a full GenCode meta block: version, block length 35 ('G' + 34 bytes), then
 // 0..3 further bytes; every byte symbolic except the three needed to reach the
 // GenCode decoder (otherwise the stubbed codecs take over)
